@@ -39,6 +39,9 @@ func (e *Engine) VerifyFunc(fn *ssa.Function, spec *FuncSpec) (res *FuncResult) 
 	e.curPkg = fn.Pkg
 	e.obs = nil
 	e.paths = 0
+	// symbol names must not depend on what was verified before: solver behaviour is name/order sensitive
+	e.counter = 0
+	e.named = nil
 	defer func() {
 		if r := recover(); r != nil {
 			switch x := r.(type) {
@@ -319,6 +322,8 @@ func (e *Engine) VerifyLemma(pkg *ssa.Package, lm *LemmaSpec) (res *FuncResult) 
 	e.curPkg = pkg
 	e.obs = nil
 	e.curEntry = nil
+	e.counter = 0
+	e.named = nil
 	defer func() {
 		if r := recover(); r != nil {
 			switch x := r.(type) {
